@@ -19,7 +19,12 @@
 //        reference: own K, p, q, M; Eigen self-adjoint solver -> @MREF @EVAL @EVEC @ORACLE, then @Y (timesteps t)
 //        and @Y2 (timesteps t + 1, same seed): Y2_c = lambda_c * Y_c fixes the SIGN of lambda_c^t, which a
 //        single run cannot show because the sign of psi_c is free.
-//   emethod: 0 = Dense, 1 = Randomized      nmethod: 0 = Brute, 1 = VpTree, 2 = CoverTree
+//   emethod: 0 = Dense, 1 = Randomized, 2 = DEFAULTS MODE: eigen_method, neighbors_method and check_connectivity are
+//            left UNSET, and so is every keyword whose requested value equals the documented library default
+//            (num_neighbors 5, target_dimension 2, gaussian_kernel_width 1.0, diffusion_map_timesteps 3); the
+//            reference then uses the documented defaults (CoverTree search under TAPKEE_USE_LGPL_COVERTREE, else
+//            Brute; check_connectivity = true; dense solver): leaving a default unset must behave as setting it.
+//   nmethod: 0 = Brute, 1 = VpTree, 2 = CoverTree
 // stdout: every line the check reads starts with '@'; "@C id" is flushed before a case, "@END id" after it.
 #include <cmath>
 #include <cstdio>
@@ -168,6 +173,15 @@ static void run_le(std::istringstream& is)
     matrix_distance_callback cb{&dist};
     // the neighbour lists the library's search returns for this request (independent of compute_laplacian)
     std::vector<std::vector<int>> nb, nb2;
+    if (em == 2)
+    {
+        cc = 1;
+#ifdef TAPKEE_USE_LGPL_COVERTREE
+        nm = 2;
+#else
+        nm = 0;
+#endif
+    }
     bool have = (k >= 1 && n >= 2) && neighbour_lists(nm, idx, cb, k, cc != 0, nb) &&
                 neighbour_lists(nm, idx, cb, k, cc != 0, nb2);
     bool usable = have && (int)nb.size() == n;
@@ -225,11 +239,18 @@ static void run_le(std::istringstream& is)
     fflush(stdout);
     try
     {
-        TapkeeOutput out = tapkee::with((method = LaplacianEigenmaps, num_neighbors = k, target_dimension = d,
-                                         gaussian_kernel_width = width, eigen_method = (em == 0 ? Dense : Randomized),
-                                         neighbors_method = neighbors_method_of(nm), check_connectivity = (cc != 0)))
-                               .withDistance(cb)
-                               .embedUsing(idx);
+        ParametersSet ps;
+        ps.add(method = LaplacianEigenmaps);
+        if (em != 2 || k != 5) ps.add(num_neighbors = k);
+        if (em != 2 || d != 2) ps.add(target_dimension = d);
+        if (em != 2 || width != 1.0) ps.add(gaussian_kernel_width = width);
+        if (em != 2)
+        {
+            ps.add(eigen_method = (em == 0 ? Dense : Randomized));
+            ps.add(neighbors_method = neighbors_method_of(nm));
+            ps.add(check_connectivity = (cc != 0));
+        }
+        TapkeeOutput out = tapkee::with(ps).withDistance(cb).embedUsing(idx);
         print_mat("Y", out.embedding);
     }
     catch (const std::exception& e)
@@ -282,11 +303,13 @@ static void run_dmap(std::istringstream& is)
         std::srand(seed);
         try
         {
-            TapkeeOutput out = tapkee::with((method = DiffusionMap, target_dimension = d,
-                                             diffusion_map_timesteps = t + pass, gaussian_kernel_width = width,
-                                             eigen_method = (em == 0 ? Dense : Randomized)))
-                                   .withDistance(cb)
-                                   .embedUsing(idx);
+            ParametersSet ps;
+            ps.add(method = DiffusionMap);
+            if (em != 2 || d != 2) ps.add(target_dimension = d);
+            if (em != 2 || t + pass != 3) ps.add(diffusion_map_timesteps = t + pass);
+            if (em != 2 || width != 1.0) ps.add(gaussian_kernel_width = width);
+            if (em != 2) ps.add(eigen_method = (em == 0 ? Dense : Randomized));
+            TapkeeOutput out = tapkee::with(ps).withDistance(cb).embedUsing(idx);
             print_mat(pass == 0 ? "Y" : "Y2", out.embedding);
         }
         catch (const std::exception& e)
